@@ -197,7 +197,7 @@ Section Boring.
 
   Lemma skipped_ge_nu_t : forall (g : gene) c, boring b g = true -> t_cdf (fst g) (snd g) = Some c ->
     T <= 2 * c /\ T <= 2 * (2 * H - c).
-  Proof.
+  Proof using b_nonneg end_lo end_hi t_mono t_nan.
     apply (skipped_ge_ord gene H T (fun g => t_cdf (fst g) (snd g)) (boring b)
              (fun a a' : gene => fst a = fst a' /\ - b <= snd a /\ snd a <= snd a' /\ snd a' <= b)
              (fun g => (fst g, - b)) (fun g => (fst g, b))).
